@@ -546,6 +546,13 @@ impl Scanner {
             ));
         }
 
+        if !exp_part.is_empty() && !exp_part.ends_with(|c: char| c.is_ascii_digit()) {
+            return Err(self.error_at(
+                self.pos + skipped + exp_part.len(),
+                "exponent has no digits",
+            ));
+        }
+
         let char_count = numlit.len();
         if self.next_char(char_count) == Some('i') {
             Ok((Token::Literal(LitKind::Imag, numlit + "i"), char_count + 1))
